@@ -14,6 +14,7 @@
 #include <bluetoe/characteristic.hpp>
 #include <bluetoe/gatt_options.hpp>
 #include <bluetoe/link_state.hpp>
+#include <bluetoe/write_queue.hpp>
 
 #ifndef MTU
 #define MTU 65
@@ -33,6 +34,7 @@ std::uint8_t v_small;
 // handles: 1 service, 2/3/4 long value (declaration, value, CCCD), 5/6 small value, 7.. fixed one byte values
 using server_t = bluetoe::server<
     bluetoe::max_mtu_size< MTU >,
+    bluetoe::shared_write_queue< 600 >,     // room for one Prepare Write Request of 512 octets
     bluetoe::no_gap_service_for_gatt_servers,
     bluetoe::service<
         bluetoe::service_uuid16< 0x1234 >,
@@ -301,6 +303,58 @@ struct World
             r = att( bytes{ 0x0A, 0x00, 0x70 }, big_buffer, mtu );
             if ( basic( c, "error-response", r, mtu, ic ) ) expect_exact( c, "error-response", r, bytes{ 0x01, 0x0A, 0x00, 0x70, 0x01 } );
             if ( done() ) return;
+        }
+        // Requests that are longer than the negotiated MTU (a transport with larger buffers delivers them; a client might
+        // use the MTU out of the Exchange MTU Response): whatever the answer is, it has to respect the MTU.
+        {
+            std::set< std::size_t > lengths{ mtu + 1, big_buffer };
+            for ( std::size_t len : lengths )
+            {
+                const std::size_t odd = len % 2 ? len : len - 1;    // Read Multiple needs an odd PDU size
+                auto pdu = [&]( std::initializer_list< std::uint8_t > head, std::size_t n, bool fill_with_handles = false ) {
+                    bytes b( head );
+                    for ( std::size_t i = b.size(); i < n; ++i ) b.push_back( fill_with_handles ? std::uint8_t( ( i - 1 ) % 2 == 0 ? h_long : 0 ) : std::uint8_t( 0xA0 + i % 0x50 ) );
+                    return b; };
+                struct { const char* what; bytes req; } const reqs[] = {
+                    { "overlong-prepare-write",      pdu( { 0x16, h_long, 0x00, 0x00, 0x00 }, len ) },
+                    { "overlong-write-request",      pdu( { 0x12, h_long, 0x00 }, len ) },
+                    { "overlong-write-request",      pdu( { 0x12, h_long, 0x00 }, std::min< std::size_t >( len, 3 + long_size ) ) },   // longest write that fits the value
+                    { "overlong-write-command",      pdu( { 0x52, h_long, 0x00 }, len ) },
+                    { "overlong-signed-write",       pdu( { 0xD2, h_long, 0x00 }, len ) },
+                    { "overlong-exchange-mtu",       pdu( { 0x02, 0xF7, 0x00 }, len ) },
+                    { "overlong-find-information",   pdu( { 0x04, 0x01, 0x00, 0xFF, 0xFF }, len ) },
+                    { "overlong-find-by-type-value", pdu( { 0x06, 0x01, 0x00, 0xFF, 0xFF, 0x00, 0x28, 0x34, 0x12 }, len ) },
+                    { "overlong-read-by-type",       pdu( { 0x08, 0x01, 0x00, 0xFF, 0xFF, 0x01, 0xAA }, len ) },
+                    { "overlong-read",               pdu( { 0x0A, h_long, 0x00 }, len ) },
+                    { "overlong-read-blob",          pdu( { 0x0C, h_long, 0x00, 0x00, 0x00 }, len ) },
+                    { "overlong-read-multiple",      pdu( { 0x0E }, odd, true ) },
+                    { "overlong-read-by-group-type", pdu( { 0x10, 0x01, 0x00, 0xFF, 0xFF, 0x00, 0x28 }, len ) },
+                    { "overlong-execute-write",      pdu( { 0x18, 0x01 }, len ) },
+                    { "overlong-confirmation",       pdu( { 0x1E }, len ) },
+                    { "overlong-unknown-opcode",     pdu( { 0x3F }, len ) } };
+                for ( auto& q : reqs )
+                {
+                    if ( q.req.size() <= mtu ) continue;
+                    Resp r = att( q.req, big_buffer, mtu );
+                    if ( basic( c, q.what, r, mtu, ic ) )
+                    {
+                        if ( q.req[ 0 ] == 0x16 )
+                        {   // Prepare Write Response: the request, cut at the MTU
+                            bytes want( q.req.begin(), q.req.begin() + mtu ); want[ 0 ] = 0x17;
+                            expect_exact( c, q.what, r, want );
+                        }
+                        else if ( q.req[ 0 ] == 0x0E )
+                            expect_exact( c, q.what, r, cat( bytes{ 0x0F }, v_long, mtu - 1 ) );
+                        else if ( q.req[ 0 ] == 0x52 || q.req[ 0 ] == 0xD2 || q.req[ 0 ] == 0x1E )
+                        {
+                            if ( q.req[ 0 ] != 0x1E && !r.out.empty() ) pfail( c, mc::fmt( "wrong-response:%s:command-answered", q.what ), mc::hex( r.out ) );
+                        }
+                        else if ( r.out.empty() )
+                            pfail( c, mc::fmt( "wrong-response:%s:no-answer", q.what ), mc::fmt( "request of %zu octets (opcode %02x) not answered", q.req.size(), q.req[ 0 ] ) );
+                    }
+                    if ( done() ) return;
+                }
+            }
         }
         // notification and indication of the long value: exactly mtu bytes.  First with the buffer size the real
         // l2cap<> layer passes ( the server's maximum MTU ), then with a 512 byte buffer.
